@@ -88,6 +88,8 @@ Definition verdict (c : case) : Z * Z :=
       | _ =>
         if fhas_big ml mo || fval_eqb mcv WBig then declined
         else if negb agree then (3, 9)
+        else if fobs_eqb (lg, oc, mcv) (ml, mo, mcv) && negb (fval_eqb cv mcv) && Full.has_jump_top p
+             then (1, 2)   (* finding class 2: the value of a statement list is lost when it ends in break/continue *)
         else judge fobs_eqb (lg, oc, cv) (ml, mo, mcv) (ml, mo, mcv) 0
       end
   end.
